@@ -315,7 +315,7 @@ Definition copy_tail (sb : B) (sl1 : L) (name : str) (bh : nat) : B * L * option
   end.
 
 Lemma copy_file_tail sb sl name bh : copy_file bstep lstep sb sl name bh =
-  let dir := path_dir name in
+  let dir := copy_dir name in
   let '(sl0, ex) := l_exists lstep sl dir in
   match ex with
   | inr e => (sb, sl0, Some e)
@@ -401,14 +401,20 @@ Proof.
 Qed.
 
 (* ---------------- copyToLayer, MemMapFs on both sides ---------------- *)
+(* "the directory part of the name" is copy_dir name — filepath.Dir(name), or filepath.Dir of the cleaned
+   name when copyfile_cleans_name = 1 (read from unionFile.go); nothing below depends on which *)
+Lemma copy_dir_meaning name :
+  copy_dir name = if Z.eqb copyfile_cleans_name 1 then path_dir (clean name) else path_dir name.
+Proof. reflexivity. Qed.
+
 (* the two overlay situations covered: (A) the directory part of the name exists in the overlay;
    (B) it does not, but ITS parent entry does (copyFile then creates one directory level, e.g. the
    overlay has only "/" and the file is /d/f) *)
 Definition overlay_has_dir (s : mst) (name : str) : Prop :=
-  (exists d dn, lookup s (normalize_path (path_dir name)) = Some d /\ get_node s d = Some dn) /\
+  (exists d dn, lookup s (normalize_path (copy_dir name)) = Some d /\ get_node s d = Some dn) /\
   create_ready s (normalize_path name).
 Definition overlay_lacks_dir (s : mst) (name : str) : Prop :=
-  let dk := normalize_path (path_dir name) in
+  let dk := normalize_path (copy_dir name) in
   let nn := normalize_path name in
   lookup s dk = None /\ parent_key dk <> dk /\
   (exists pp pn, lookup s (parent_key dk) = Some pp /\ get_node s pp = Some pn) /\
@@ -434,13 +440,13 @@ Proof.
   rewrite copy_file_tail. cbv zeta. unfold l_exists.
   destruct Hready as [[[d [dn [Hdl Hdn]]] Hcr] | [Hdno [Hdpk [[pp [pn [Hdpl Hdpn]]] [Hno [Hpk Hne]]]]]].
   - (* A *)
-    rewrite (layer_stat_ok sl (path_dir name) d dn Hdl Hdn). cbn [is_not_exist].
+    rewrite (layer_stat_ok sl (copy_dir name) d dn Hdl Hdn). cbn [is_not_exist].
     destruct (copy_tail_mem sb1 (tick sl) name f nd bh Hb1 Hbd Hcr) as [sb' [sl' [Et [Hv [Hb' Hlf]]]]].
     rewrite Et. exists (fst (m_step sb' (HClose bh))), sl', (length (mheap (tick sl))).
     split; [reflexivity|]. split; [|exact Hlf]. rewrite (base_close f nd bh sb' _ Hb'). congruence.
   - (* B *)
-    rewrite (stat_missing sl (path_dir name) Hdno). cbn [is_not_exist ek EW].
-    destruct (layer_mkdirall_new (tick sl) (path_dir name) 511 pp pn Hdno Hdpk Hdpl Hdpn) as [sl1 [Em [Hd1 [[dn1 Hdn1] [Hoth [Hlen Hh]]]]]].
+    rewrite (stat_missing sl (copy_dir name) Hdno). cbn [is_not_exist ek EW].
+    destruct (layer_mkdirall_new (tick sl) (copy_dir name) 511 pp pn Hdno Hdpk Hdpl Hdpn) as [sl1 [Em [Hd1 [[dn1 Hdn1] [Hoth [Hlen Hh]]]]]].
     rewrite Em.
     assert (Hcr : create_ready sl1 nn).
     { unfold nn. split; [rewrite Hoth; [exact Hno | intros Hx; apply Hne; symmetry; exact Hx]|].
@@ -660,7 +666,7 @@ End CowMem.
 (* the predicates used in the statements, spelled out *)
 Lemma copy_up_ready_meaning s name :
   copy_up_ready s name <->
-  let dk := normalize_path (path_dir name) in
+  let dk := normalize_path (copy_dir name) in
   let nn := normalize_path name in
   ((exists d dn, lookup s dk = Some d /\ get_node s d = Some dn) /\
    lookup s nn = None /\ parent_key nn <> nn /\
